@@ -803,3 +803,22 @@ mod asyncfs {
         }
     }
 }
+
+
+// ------------------------------------------------------------------------------------------------
+// The scripted filesystem as a Vfs backend (C20: the Vfs's own asynchronous implementation)
+
+impl fuse_backend_rs::api::BackendFileSystem for ScriptFs {
+    fn mount(&self) -> io::Result<(Entry, u64)> {
+        let mut st = zero_stat();
+        st.st_ino = 1;
+        st.st_mode = libc::S_IFDIR | 0o755;
+        st.st_nlink = 2;
+        st.st_uid = 3;
+        st.st_gid = 4;
+        Ok((Entry { inode: 1, generation: 0, attr: st, attr_flags: 0, attr_timeout: Duration::from_secs(1), entry_timeout: Duration::from_secs(1) }, 1 << 40))
+    }
+    fn as_any(&self) -> &dyn std::any::Any {
+        self
+    }
+}
